@@ -545,6 +545,10 @@ def synthesise (c : Cfg) (q : Query) (orig : Down) (copied : Bool) (a : AResp) :
         else { kind := .synth, rcode := 0, aq := 1, ede4 := ede4After orig, ans := chain ++ syn,
                ns := copyExtraNoOPT a.ns, extra := appendOPTFrom orig (copyExtraNoOPT a.extra) }
 
+/-- `aReq.CheckingDisabled = w.req.CheckingDisabled`: the secondary A lookup
+inherits the client's CD bit and nothing else (the PTR chase never sets it). -/
+def subQueryCD (q : Query) (aq : Nat) : Bool := aq == 1 && q.cd
+
 /-- `responseWriter.WriteMsg`. -/
 def writeMsg (c : Cfg) (q : Query) (m : Down) (a : AResp) : Reply :=
   match dispatch c q m with
